@@ -330,6 +330,9 @@ func fieldMutate(rt *rapid.T, in []byte, label string) ([]byte, string) {
 	}
 	resize := func(b []byte) []byte {
 		l := gen.Pick(rt, []int{0, 1, 31, 33, 39, 40, 41, 64, 65, 96, 97, 128, 129, 200, 1000}, label+"len")
+		if gen.Chance(rt, 15, label+"biglen") {
+			l = gen.Pick(rt, []int{2047, 2048, 4087, 4088, 4089, 4096, 5000, 16384, 65535, 65536, 70000}, label+"lenbig")
+		}
 		out := make([]byte, l)
 		copy(out, b)
 		return out
@@ -381,7 +384,18 @@ func fieldMutate(rt *rapid.T, in []byte, label string) ([]byte, string) {
 	}
 	switch {
 	case n.Branch != nil:
-		switch gen.Uniform(rt, 0, 5, label+"bf") {
+		switch gen.Uniform(rt, 0, 6, label+"bf") {
+		case 6:
+			// several slots at once hold long records (an embedded short node with a key rest of hundreds of elements)
+			if len(n.Branch.Children) >= 4 {
+				for k := gen.Uniform(rt, 2, 6, label+"ngrow"); k > 0; k-- {
+					c := gen.Uniform(rt, 0, len(n.Branch.Children)-2, label+"gc")
+					grown := make([]byte, gen.Pick(rt, []int{73, 136, 137, 300, 500, 700, 800, 1000}, label+"glen"))
+					copy(grown, n.Branch.Children[c])
+					n.Branch.Children[c] = grown
+				}
+				what = "branch-several-long-children"
+			}
 		case 4:
 			// a branch without a single occupied slot (all sixteen empty)
 			n.Branch.Children = make([][]byte, 16)
@@ -420,9 +434,12 @@ func fieldMutate(rt *rapid.T, in []byte, label string) ([]byte, string) {
 			what = "short-child-ref-length"
 		}
 	case n.Value != nil:
-		if gen.Chance(rt, 50, label+"vf") {
+		if k := gen.Pct(rt, label+"vf"); k < 40 {
 			n.Value.Hash = resize(n.Value.Hash)
 			what = "value-hash-length"
+		} else if k < 70 {
+			n.Value.Value = resize(n.Value.Value)
+			what = "value-length"
 		} else {
 			n.Value.Value = nil
 			what = "value-empty"
